@@ -59,6 +59,12 @@ def main(tier, replay):
         n_sw, n_gen = (40, 60) if tier == "quick" else (1500, 1500)
         scns = [sweep_scenario(rnd, i + 1) for i in range(n_sw)]
         scns += [netgen.gen(rnd, n_sw + i + 1, mode="PDD") for i in range(n_gen)]
+        # controls that change the required pressure of a junction with its own PDD parameters during the run
+        for s in scns[n_sw:]:
+            for nd in s["nodes"]:
+                if nd["type"] == "J" and nd.get("has_pdd") and rnd.random() < 0.6:
+                    nd["pctl"] = [{"thr": s["H"] * rnd.randint(1, 3), "val": nd["pmin"] + rnd.choice([4.0, 12.0, 40.0])}]
+                    ck.count("junctions_with_required_pressure_control")
     good = hyd.validate(ck, "C07", scns, props)
     br = {"below_pmin": 0, "band_lo": 0, "power": 0, "band_hi": 0, "above_preq": 0}
     for s, rows in good:
